@@ -19,6 +19,9 @@ def type_adts(tystr):
     return re.findall(r"([A-Za-z_][\w]*(?:::[A-Za-z_][\w]*)+)", tystr)
 
 
+import parser_rules as PRS
+
+
 def run(ctx):
     facts = ctx.facts
     roles.bind(facts)
@@ -100,12 +103,16 @@ def run(ctx):
             ctx.obs.append(engine.Ob("C09.7|" + o.key.split("|", 1)[1], "C09.7", "[raw reader => last request] " + o.text, o.ok, o.where, o.detail, o.nontrivial))
     ctx.floor("C09.7 obligations taken from the keep-alive table", n7, 3)
 
+    # ---- C09.8 a request that is refused while it is built (malformed header, invalid length, unsupported expectation) leaves its body unread on
+    # the connection: the parser must end the connection after answering, not go on reading (the body would be parsed as the next request)
+    PRS.trace_and_judge(ctx, "C09.8", "C09.8", only=lambda label: "reported by new_request" in label or label == "unsupported Expect value" or label == "malformed header line")
+
     # ---- C09.3 buffered bodies are read completely before the Request is built
     import rules_C03
     rules_C03.preread_rules(ctx, "C09.3")
 
     # ---- C09.4 reader hand-off
-    import turn_rules as T, parser_rules as PRS, absint
+    import turn_rules as T, absint
     T.rule_reader_chain(ctx, "C09.4")
     # the head reader: the request gets the reader the head was just read from, the connection keeps the freshly drawn one
     PM = PRS.pmodel(facts)
